@@ -93,6 +93,8 @@ func (S06) RunTape(t *sim.Tape, st *sim.Stats, keepLog bool) *sim.Outcome {
 	s := sim.NewSim(t, sim.NewChanBaton())
 	s.Log.Keep = keepLog
 	s.MaxSteps = 400000
+	useMust = t.Pct(15, "cfg.must") // Load and Fill go through MustLoad / MustFill in this unit
+	defer func() { useMust = false }()
 	be := newBackend(t)
 	lsys := cidlink.DefaultLinkSystem()
 	be.wire(&lsys)
@@ -735,7 +737,47 @@ func protoForKind(k model.Kind) datamodel.NodePrototype {
 	return basicnode.Prototype.Any
 }
 
+// useMust: this run goes through the panicking convenience forms (MustLoad, MustFill, MustStore,
+// MustComputeLink) where there is one; the error they panic with is taken as the call's error.
+var useMust bool
+
+// catchErr is catch for the Must forms: a panic whose value is an error is that call's error.
+func catchErr(f func()) (err error, pan string) {
+	defer func() {
+		if r := recover(); r != nil {
+			if _, ok := r.(interface{ IsStepCap() }); ok {
+				panic(r)
+			}
+			if fmt.Sprintf("%T", r) == "sim.stepCap" {
+				panic(r)
+			}
+			if e, ok := r.(error); ok {
+				err = e
+				return
+			}
+			pan = fmt.Sprintf("%v", r)
+		}
+	}()
+	f()
+	return nil, ""
+}
+
 func doLoadInto(lsys *linking.LinkSystem, fn int, l datamodel.Link, np datamodel.NodePrototype) (res loadRes) {
+	if useMust && (fn == 0 || fn == 3) {
+		res.err, res.pan = catchErr(func() {
+			if fn == 0 {
+				res.node = lsys.MustLoad(linking.LinkContext{}, l, np)
+				return
+			}
+			nb := np.NewBuilder()
+			lsys.MustFill(linking.LinkContext{}, l, nb)
+			res.node = nb.Build()
+		})
+		if res.err != nil {
+			res.node = nil
+		}
+		return
+	}
 	res.pan = catch(func() {
 		switch fn {
 		case 0:
